@@ -86,3 +86,17 @@ Proof.
   destruct (0xFFFFFFFF <? size); [reflexivity|].
   match goal with |- context [if ?b then _ else _] => destruct b end; [reflexivity|discriminate].
 Qed.
+
+(** An explicit target address type always wins over the layer's default; an omitted one takes the default.  In particular a
+    Physical send is accepted for every size up to 2^32 - 1 whatever the default is, and its request carries Physical. *)
+Theorem send_explicit_physical c s g size : 0 <= size <= 0xFFFFFFFF ->
+  send c s g size (Some Physical) =
+  (s <| tx_queue := tx_queue s ++ [{| r_id := next_req_id s; r_gen := g; r_size := size; r_consumed := 0; r_depleted := false; r_tat := Physical |}] |>
+     <| next_req_id := next_req_id s + 1 |>, SendOk).
+Proof.
+  intros H. unfold send. destruct (Z.ltb_spec size 0); [lia|]. destruct (Z.ltb_spec 0xFFFFFFFF size); [lia|]. reflexivity.
+Qed.
+
+Theorem send_default_target c s g size : send c s g size None = send c s g size (Some (p_default_tat (c_p c))).
+Proof. reflexivity. Qed.
+
